@@ -357,6 +357,17 @@ func checkC03(res *Result) {
 		}
 	}
 
+	// R7: what the strip clears is all the decoder kept of the member
+	res.Rule("C03-R7", "the strip reaches every copy: the decoder keeps a hidden-recipient member only in its typed property — a type does not also keep the raw member among its unknown members (which are written back verbatim) because the document spelt it with a vocabulary alias")
+	if ok, nT, ex := claimsIgnoreAlias(loadStreams()); nT > 0 {
+		if !ok {
+			res.Add(Oblig{Rule: "C03-R7", Func: "streams/impl", Pos: "-", Key: "C03-R7|streams/impl|aliased bto/bcc kept among the unknown members",
+				Desc: "bto/bcc are kept only in their typed properties", Verdict: VIOLATION,
+				Detail: fmt.Sprintf("%d of %d types compare document keys with plain member names only (e.g. %s): \"as:bcc\" in a document that aliases the vocabulary is interpreted AND kept as an unknown member, so it is still in the payload after stripHiddenRecipients / clearSensitiveFields set the typed property to nil", len(ex), nT, strings.Join(ex[:min(len(ex), 3)], ", "))})
+		} else {
+			res.ok("C03-R7", "streams/impl", "-", "bto/bcc are kept only in their typed properties")
+		}
+	}
 	// R5
 	checkKindConsistency(res, p, "C03-R5", "wrapInCreate", 1, false)
 	checkKindConsistency(res, p, "C03-R5", "normalizeRecipients", 2, true)
